@@ -358,6 +358,9 @@ Definition range_expect (prop : string) (i : sinput) (hint : range_hint) (o : so
           ++ (if (2 * (sum_lens rs + 80 * n) <? L) && (lenN (each_part_headers (e_hdrs (i_ent i))) <? 4096)
               then check multipart prop "multipart-when-under-half" else [])
           ++ (if (L <=? sum_lens rs) then check (negb multipart) prop "never-multipart-when-covering" else [])
+          (* "either a multipart 206 ... or a complete 200", and never multipart here: so the complete 200
+             (413 is for a multipart length that cannot be announced, which is not attempted here) *)
+          ++ (if (L <=? sum_lens rs) then check (o_status o =? 200) prop "complete-200-when-the-ranges-cover-the-entity" else [])
           ++ (if multipart && is_get i then
                 check (calls_eqb (o_calls o) (firstn (List.length (o_calls o)) rs)) prop "multipart-ranges-in-request-order"
               else [])
